@@ -29,7 +29,7 @@ func (i in) sepKey() string { return fmt.Sprintf("k%d|%q|%x", i.key, i.ctx, i.sa
 func TestCheck(t *testing.T) {
 	r := vf.Start(t, "C13", vf.Exploration)
 	defer r.Finish()
-	r.SetRule("inputs = (key from a seeded pool) x (context from {empty, 1 char, short, long, unicode, embedded NUL, PRNG}) x (salt from {nil, empty, 1 B, 1 KiB, PRNG}) x (output length from {0,1,31,32,33,64,1000}); a case is non-trivial when DeriveKey returned without error; distinct = distinct (key,ctx,salt,len). Oracle: no panic; same inputs twice (and from 2 goroutines) => same bytes; output buffers are pre-filled with call-dependent garbage and have varying capacity; over all outputs of >=16 bytes, equal output (first 32 bytes, per length class) => equal (key,ctx,salt), including salts/contexts of 16..70000 bytes that differ only in one late byte or in length; shorter outputs are prefixes of longer ones is NOT demanded; DeriveEd25519Key output signs and verifies")
+	r.SetRule("inputs = (key from a seeded pool) x (context from {empty, 1 char, short, long, unicode, embedded NUL, PRNG}) x (salt from {nil, empty, 1 B, 1 KiB, PRNG}) x (output length from {0,1,31,32,33,64,1000}); a case is non-trivial when DeriveKey returned without error; distinct = distinct (key,ctx,salt,len). Oracle: no panic; same inputs twice (and from 2 goroutines) => same bytes; output buffers are pre-filled with call-dependent garbage and have varying capacity; over all outputs of >=16 bytes, equal output (first 32 bytes, per length class) => equal (key,ctx,salt), including salts/contexts of 16..70000 bytes that differ only in one late byte or in length; shorter outputs are prefixes of longer ones is NOT demanded; (context, salt) pairs shifted across every separator-like byte are derived consecutively in one process (caches keyed by joined strings); DeriveEd25519Key output signs and verifies")
 	rng := r.Rand("c13")
 	pool := keys.Pool(rng, r.N(12, 200))
 	ctxs := []string{"", "a", "b", "ab", "example.com 2019-12-25 16:18:03 session tokens v1", strings.Repeat("x", 4096), "ключ-日本語", "a\x00b", "a\x00", "\x00"}
@@ -71,6 +71,22 @@ func TestCheck(t *testing.T) {
 				cases = append(cases, in{0, "ctx", v, l})
 				if L <= 4096 {
 					cases = append(cases, in{1, string(v), []byte("s"), l})
+				}
+			}
+		}
+	}
+	// separation across the (context, salt) boundary: pairs whose concatenation
+	// with any separator-like byte coincides (("a/b","c") vs ("a","b/c"), ...)
+	var shifted []in
+	for _, sep := range []string{"/", ":", "|", ",", " ", "\x00", "-", ".", "//"} {
+		for _, w := range [][3]string{{"a", "b", "c"}, {"app", "", ""}, {"dex", "x", "y"}, {"", "k", ""}, {"ctx", sep, "s"}} {
+			l, m, rr := w[0], w[1], w[2]
+			pairs := [][2]string{{l + sep + m, rr}, {l, m + sep + rr}, {l + sep + m + sep, rr}, {l, sep + m + sep + rr}, {l + sep + m + sep + rr, ""}, {"", l + sep + m + sep + rr}}
+			for _, pr := range pairs {
+				for k := 0; k < 2; k++ {
+					c := in{k, pr[0], []byte(pr[1]), 32}
+					cases = append(cases, c)
+					shifted = append(shifted, c)
 				}
 			}
 		}
@@ -170,8 +186,13 @@ func TestCheck(t *testing.T) {
 	// DeriveEd25519Key: usable key, deterministic, separated
 	seenID := map[string]string{}
 	m := r.N(300, 20000)
-	for i := 0; i < m; i++ {
-		c := cases[rng.IntN(len(cases))]
+	for i := 0; i < m+len(shifted); i++ {
+		var c in
+		if i < len(shifted) {
+			c = shifted[i] // boundary-shifted pairs, consecutively, in one process
+		} else {
+			c = cases[rng.IntN(len(cases))]
+		}
 		var err error
 		var id1, id2 string
 		pk, pd := vf.Try(func() {
